@@ -125,8 +125,22 @@ Definition keyed (cs ics : list name) (rs : list row) : list entry := map (fun r
 Definition widths_ok (t : table) : bool :=
   forallb (fun r => Nat.eqb (length r) (length (cols t))) (buffer t).
 
+(* the indexed branch of Table.commit as pandas executes it; None = raises
+   `cannot reindex on an axis with duplicate labels`, before anything was assigned *)
+Definition merge_indexed (dedup : bool) (cs ics : list name) (F : list entry) (B : list row) : option (list entry) :=
+  let b0 := keyed cs ics B in                                    (* pd.DataFrame(self.buffer, columns) *)
+  let b1 := if dedup then dedup_last key_cmp b0 else b0 in       (* drop_duplicates(subset=idx_cols, keep='last') *)
+  let b3 := drop_dup_rows [] (isort key_cmp b1) in               (* _create_index_from_cols *)
+  let fkeys := map fst F in
+  let common := filter (fun e => memk key_cmp (fst e) fkeys) b3 in     (* index.intersection, with multiplicity in b *)
+  if has_dup key_cmp (map fst common) then None else
+  let frame' := map (fun e => match lookup key_cmp (fst e) b3 with     (* .loc[common] = b.loc[common] *)
+                              | Some r' => (fst e, r') | None => e end) F in
+  let rest := filter (fun e => negb (memk key_cmp (fst e) fkeys)) b3 in
+  Some (isort key_cmp (frame' ++ rest)).                          (* concat + sort_index *)
+
 (* Table.commit; None = raises (np.concatenate / DataFrame(...) on rows of another width, or
-   `cannot reindex on an axis with duplicate labels`): nothing was assigned, the buffer stays *)
+   the duplicate-label error above): nothing was assigned, the buffer stays *)
 Definition commit (fl : flags) (t : table) : option table :=
   match buffer t with
   | [] => Some t
@@ -135,16 +149,10 @@ Definition commit (fl : flags) (t : table) : option table :=
     match index t with
     | None => Some (mkT (cols t) (frame t ++ unkeyed (buffer t)) None [])
     | Some ics =>
-        let b0 := keyed (cols t) ics (buffer t) in
-        let b1 := if f_dedup_last fl then dedup_last key_cmp b0 else b0 in
-        let b3 := drop_dup_rows [] (isort key_cmp b1) in
-        let fkeys := map fst (frame t) in
-        let common := filter (fun e => memk key_cmp (fst e) fkeys) b3 in
-        if has_dup key_cmp (map fst common) then None else
-        let frame' := map (fun e => match lookup key_cmp (fst e) b3 with
-                                    | Some r' => (fst e, r') | None => e end) (frame t) in
-        let rest := filter (fun e => negb (memk key_cmp (fst e) fkeys)) b3 in
-        Some (mkT (cols t) (isort key_cmp (frame' ++ rest)) (Some ics) [])
+        match merge_indexed (f_dedup_last fl) (cols t) ics (frame t) (buffer t) with
+        | None => None
+        | Some f => Some (mkT (cols t) f (Some ics) [])
+        end
     end
   end.
 
